@@ -24,6 +24,9 @@ def errStr : Err → String
 def handle (j : Json) : Json :=
   match jstr j "op" with
   | "float" =>
+    if jbool j "complex" then
+      (match acceptF .complex with | .ok _ => Json.str "ok" | .error e => Json.str (errStr e))
+    else
     let ndv := parseRat (jstr j "ndv")
     let xs0 := (jstrs j "xs").map parseFlt
     let xs := match j.getObjVal? "n" with | .ok n => padTo Flt.nan (asNat n) xs0 | _ => xs0
